@@ -153,17 +153,6 @@ def pyval(v):
     raise ValueError(v)
 
 
-def freeze(x):
-    """hashable variant (set elements / dict keys)"""
-    from hail.utils import Struct
-
-    if isinstance(x, list):
-        return tuple(freeze(e) for e in x)
-    if isinstance(x, (set, frozenset)):
-        return frozenset(freeze(e) for e in x)
-    return x
-
-
 # ---------------------------------------------------------------------------------------------------
 # IR-side recomputation
 def _dag(root):
@@ -414,17 +403,6 @@ class Builder:
             return self.expr(body)
         finally:
             del self.vars[n:]
-
-
-def user_errors():
-    """Exception classes with which the front end refuses a program."""
-    hl = setup()
-    from hail.expr.expressions import ExpressionException
-    from hail.typecheck.check import TypecheckFailure
-    from hail.utils.java import FatalError, HailUserError
-
-    return (TypeError, ValueError, ExpressionException, NotImplementedError, KeyError, AttributeError, LookupError,
-            TypecheckFailure, FatalError, HailUserError, RuntimeError)
 
 
 def classify_exception(ex):
